@@ -403,7 +403,7 @@ static void tpm2_fresh(const char *profile) {
 static Rsp tpm2_startup(Buf *b, uint16_t su) { cmd_begin(b, ST_NO_SESSIONS, CC_Startup); b_u16(b, su); return run(b); }
 static Rsp tpm2_shutdown(Buf *b, uint16_t su) { cmd_begin(b, ST_NO_SESSIONS, CC_Shutdown); b_u16(b, su); return run(b); }
 
-static int g_tpm2_statics;   /* set by TPM 2 scenarios that want a power cycle to look like a new process */
+static int g_tpm2_statics = 1;   /* a power cycle or resume starts from the load-time image of the library's globals, as a new process does (scenarios about one process's API calls switch it off) */
 /* power cut: terminate, MainInit again from storage (store callback content) */
 extern void verif_new_process_statics(void);
 static TPM_RESULT tpm2_powercycle(void) {
@@ -419,6 +419,7 @@ static TPM_RESULT tpm2_suspend_resume(Blob *perm_out, Blob *vol_out) {
     if ((r = TPMLIB_GetState(TPMLIB_STATE_PERMANENT, &pb, &pl)) != TPM_SUCCESS) return r | 0x10000;
     if ((r = TPMLIB_GetState(TPMLIB_STATE_VOLATILE, &vb, &vl)) != TPM_SUCCESS) { free(pb); return r | 0x20000; }
     TPMLIB_Terminate();
+    if (g_tpm2_statics) verif_new_process_statics();
     r = TPMLIB_SetState(TPMLIB_STATE_PERMANENT, pb, pl);
     if (r == TPM_SUCCESS) r = TPMLIB_SetState(TPMLIB_STATE_VOLATILE, vb, vl); else r |= 0x30000;
     if (perm_out) blob_set(perm_out, pb, pl);
@@ -427,6 +428,10 @@ static TPM_RESULT tpm2_suspend_resume(Blob *perm_out, Blob *vol_out) {
     if (r != TPM_SUCCESS) return r;
     return TPMLIB_MainInit();
 }
+
+/* every TPMLIB_Terminate() of a scenario ends "the process": what follows starts from the load-time image of the globals */
+static void verif_terminate(void) { TPMLIB_Terminate(); if (g_tpm2_statics) verif_new_process_statics(); }
+#define TPMLIB_Terminate() verif_terminate()
 
 static const char *PROFILE_NULL = "{\"Name\":\"null\"}";
 static const char *PROFILE_DEFAULT_V1 = "{\"Name\":\"default-v1\"}";
